@@ -116,6 +116,16 @@ CLAIMED = {
         note=TRUST + ". Grammar membership below expression level is decided by my parser. Known findings "
              "KF-C06-noid and KF-C03-shadow excluded by predicates.",
         ref="3 C06"),
+    "C13": dict(
+        text="(A)+(B) MC_Ser documents (records with repeated identifiers, bundles, namespace histories) followed by "
+             "every ordered pair (and a triple repetition) of exporters (json, xml, provn, rdf, dot, graph, unified, "
+             "flattened, ==, hash; more option variants in thorough); (C) C13_pure = frame condition on all live handles "
+             "(content, record order, registered and default namespaces), C13_repeat against the previous call of the "
+             "same exporter, C13_twin against a twin document built by the same calls; the model (DoExport) predicts "
+             "the state after the export (zero drift).",
+        note=TRUST + ". Text equality is decided in the harness (RDF by graph isomorphism). Known finding "
+             "KF-unified-registers excluded by predicate.",
+        ref="3 C13"),
 }
 for _c in CLAIMED.values():
     _c.setdefault("technique", TECH)
